@@ -270,7 +270,7 @@ func c03Cases(prop, tier string, seed uint64) []Case {
 		for i, comp := range config.KnownCompressionFormats {
 			add(Cfg{Comp: comp, Level: config.KnownCompressionLevels[i%3], Enc: config.KnownEncryptionFormats[(i+1)%3], Sig: config.KnownSignatureFormats[(i+2)%3], RS: rss[i%len(rss)], WC: wcs[i%2]})
 		}
-		for len(cfgs) < 24 {
+		for len(cfgs) < 110 {
 			p := pipes[r.Intn(len(pipes))]
 			p.RS = rss[r.Intn(len(rss))]
 			p.WC = wcs[r.Intn(2)]
